@@ -430,7 +430,12 @@ func (e *Engine) acquireByIteration(p *Node) error {
 	}
 	if p.IsMap {
 		var ferr error
+		yielded := 0
 		err := p.HM.Iterate(e.CB.Compare, e.CB.HashInput, func(k, v atree.Value) (bool, error) {
+			if yielded++; yielded > len(p.Ents) {
+				ferr = fmt.Errorf("mutable iteration yields more than the %d entries of the map", len(p.Ents))
+				return false, nil
+			}
 			ck, err := canonOfValue(k)
 			if err != nil {
 				ferr = err
@@ -674,6 +679,9 @@ func (e *Engine) mk(vd *VD, addr atree.Address, limit uint32, depth int) (atree.
 				continue
 			}
 			ev := e.elemVD(vd.E, uint64(i), depth)
+			if vd.K == "cmap" && vd.L > 7 {
+				ev = &VD{K: "u", N: uint64(i) % 24} // many fields: one-byte values, so that the composite can still be inlined
+			}
 			kv := keyValue(km)
 			ks, err := kv.Storable(nil, addr, ^uint32(0))
 			if err != nil {
